@@ -432,6 +432,10 @@ func sExec(j sJob, p *sPrep, win *dfsRun, states *vrt.StateSet) (res sResult) {
 				} else if err := mgr.Restart(); err != nil {
 					rec.Err = err.Error()
 				}
+				if w.V.Closing() {
+					rec.Err = "" // released by the teardown, not a return of the request
+					return
+				}
 				rec.Returned = true
 			}()
 			if w.V.Closing() {
@@ -730,9 +734,16 @@ func sJobs(thorough bool) []sJob {
 		}
 	}
 	if thorough {
-		add(3, []string{"1d", "1l", "1c"}, []string{"b2b", "after", "late", "fail"})
-		add(2, []string{"1d", "1l", "1c"}, []string{"two", "early"})
-		add(2, []string{"2d", "2l"}, []string{"early", "after", "late"})
+		// ordered by value per execution: if the time budget is hit, the last (largest) jobs are the ones cut
+		add(3, []string{"1d", "1l", "1c"}, []string{"fail", "after", "late"})
+		add(2, []string{"1d"}, []string{"two"})
+		add(1, []string{"1l", "1c"}, []string{"two"})
+		add(2, []string{"1l"}, []string{"early"})
+		add(1, []string{"1c"}, []string{"early"})
+		add(2, []string{"2d", "2l"}, []string{"after", "late"})
+		add(1, []string{"2d", "2l"}, []string{"early"})
+		add(3, []string{"1d", "1c", "1l"}, []string{"b2b"})
+		add(2, []string{"1d"}, []string{"early"})
 		return jobs
 	}
 	add(2, []string{"1d", "1l"}, []string{"b2b", "after", "late", "fail"})
